@@ -228,6 +228,10 @@ class Gen(object):
 
     def name(self):
         self.count += 1
+        if self.rng.random() < 0.3:
+            # names recur inside one process with other layouts (two revisions of "struct hdr"):
+            # type identity is the name AND the fields, the per-type view classes are cached globally
+            return self.rng.choice(["hdr", "node", "S"])
         return "%s_%d" % (self.prefix, self.count)
 
     def field_name(self):
